@@ -16,8 +16,9 @@ RULE = (
     'distinct = cell without seed; non-trivial iff the function distribution has non-zero off-diagonal covariance and R != 0'
     '; pass 5: every likelihood in training and in evaluation mode; multitask cells with points == tasks, batch == tasks and batched likelihoods on smaller-batch distributions'
     '; pass 6: noise re-bound / re-initialised between two calls (property, noise-model attribute, initialize)'
+    '; pass 7: stacked noise tensors and None entries for list members; the Dirichlet classification member (noise and targets derived from labels, alpha_epsilon in {0.01, 0.1, 1}, stored labels and call-time labels that may lack the largest class, float and double)'
 )
-REQUIRED = ["marginal_adds_R", "marginal_keeps_mean", "expected_log_prob", "log_marginal", "forward_scale", "list_memberwise", "monitor:marginal_calls"]
+REQUIRED = ["marginal_adds_R", "marginal_keeps_mean", "expected_log_prob", "log_marginal", "forward_scale", "list_memberwise", "monitor:marginal_calls", "dirichlet_noise"]
 ASSUMPTIONS = ["R is built from public parameter values only (noise, second_noise, task_noises, task_noise_covar)"]
 ANCHOR_FILES = ["gpytorch/likelihoods/"]
 
@@ -61,6 +62,11 @@ def cases(tier, seed):
         for members in (["fixed", "fixed", "fixed"], ["fixed", "fixed+learn", "fixed"]):
             for none_at in ([1], [0], [2], [0, 2]):
                 yield {"kind": "list", "n": 3, "call_noise": True, "none_at": none_at, "members": members, "seed": rnd.randrange(10**6)}
+        # the Dirichlet classification member of the family: fixed noise derived from class labels, (classes x points) layout
+        for eps, learn, dt, n, C in itertools.product([0.01, 0.1, 1.0], [False, True], ["double", "float"], [1, 5], [2, 3]):
+            if tier == "quick" and rnd.random() < 0.5:
+                continue
+            yield {"kind": "dirichlet", "alpha_epsilon": eps, "learn": learn, "dtype": dt, "n": n, "classes": C, "seed": rnd.randrange(10**6)}
         for kind, n, m, rounds, fb in itertools.product(["fixed", "fixed+learn"], [1, 4], [1, 3], [1, 2, 3], [[], [2]]):
             yield {"kind": "fantasy_lik", "lkind": kind, "n": n, "m": m, "rounds": rounds, "fbatch": fb, "seed": rnd.randrange(10**6)}
 
@@ -146,10 +152,59 @@ def _R_single(lik, kind, fixed, call, shape):
     return r
 
 
+def _dirichlet(case, ctx, g):
+    """DirichletClassificationLikelihood (docstring + Milios et al.): class labels y_i become C regression problems with
+    alpha_ic = alpha_eps + [y_i = c], fixed noise sigma2_ic = log(1/alpha_ic + 1) and targets log(alpha_ic) - sigma2_ic / 2, laid
+    out (classes x points); calling it on N(m, K) adds exactly that noise (+ the learned one), for the stored labels and for
+    labels passed at call time (`targets=`) - with the likelihood's own alpha_eps in both cases"""
+    import torch
+
+    from gpytorch.distributions import MultivariateNormal as MVN
+    from gpytorch.likelihoods import DirichletClassificationLikelihood as DCL
+    from vf import util
+
+    n, C, eps = case["n"], case["classes"], case["alpha_epsilon"]
+    dt = torch.double if case["dtype"] == "double" else torch.float
+    tol = (1e-12, 1e-12) if dt == torch.double else (1e-5, 1e-5)
+    y = torch.randint(0, C, (n,), generator=g)
+    y[0] = C - 1  # (the number of classes is read off the largest label)
+    lik = DCL(y, alpha_epsilon=eps, learn_additional_noise=case["learn"], dtype=dt)
+    if case["learn"]:
+        util.randomize(lik, g, 0.5)
+    lik.eval()
+
+    def ref(labels):
+        k = labels.shape[-1]
+        al = torch.full((k, C), eps, dtype=torch.double)
+        al[torch.arange(k), labels] += 1.0
+        s2 = torch.log(1.0 / al + 1.0)
+        return s2.T, (al.log() - 0.5 * s2).T
+
+    s2, tt = ref(y)
+    with torch.no_grad():
+        extra = lik.second_noise.double().reshape(-1, 1) if case["learn"] else torch.zeros(1, 1, dtype=torch.double)
+        ctx.close("dirichlet_noise", lik.noise_covar.noise.double(), s2, tol, cls="stored_noise")
+        ctx.close("dirichlet_noise", lik.transformed_targets.double(), tt, tol, cls="transformed_targets")
+        ctx.expect("dirichlet_noise", lik.noise_covar.noise.dtype == dt and lik.transformed_targets.dtype == dt, f"dtype of the derived noise / targets is not the requested {dt}")
+        for labels, kw, tag in ((y, {}, "stored"), (torch.randint(0, C, (n + 2,), generator=g), None, "call_time"), (torch.randint(0, C, (n,), generator=g), None, "call_time_same_size")):
+            k = labels.shape[-1]
+            A = util.randn(g, C, k, k).to(dt)
+            K = A @ A.transpose(-1, -2) + torch.eye(k, dtype=dt)
+            mu = util.randn(g, C, k).to(dt)
+            out = lik(MVN(mu, K), **({"targets": labels} if kw is None else kw))
+            r2, _ = ref(labels)
+            R = torch.diag_embed(r2) + extra.unsqueeze(-1) * torch.eye(k, dtype=torch.double)
+            ctx.close("marginal_adds_R", out.covariance_matrix.double() - K.double(), R.expand(C, k, k), tol if dt == torch.double else (1e-4, 1e-4), cls="dirichlet:" + tag, alpha_epsilon=eps)
+            ctx.close("marginal_keeps_mean", out.mean, mu, "bit")
+    ctx.cell({k_: v_ for k_, v_ in case.items() if k_ != "seed"}, nontrivial=True)
+
+
 def run_case(case, ctx):
     from vf import util
 
     g = util.gen(case["seed"])
+    if case["kind"] == "dirichlet":
+        return _dirichlet(case, ctx, g)
     if case["kind"] == "size_mismatch":
         return _size_mismatch(case, ctx, g)
     if case["kind"] == "reassign":
